@@ -49,10 +49,37 @@ pub enum Op {
     DropHandle,
 }
 
+/// `ttl_ms` values with this bit set carry a TTL in nanoseconds in the low bits (sub-millisecond TTLs)
+pub const TTL_NS_TAG: u64 = 1 << 62;
+/// `ttl_ms == TTL_MAX` stands for `Duration::MAX` ("keep it for ever", spelled as a TTL)
+pub const TTL_MAX: u64 = u64::MAX;
+/// the `Duration` handed to the cache for an encoded TTL
+pub fn ttl_dur(ttl_ms: u64) -> Duration {
+    if ttl_ms == TTL_MAX {
+        Duration::MAX
+    } else if ttl_ms & TTL_NS_TAG != 0 {
+        Duration::from_nanos(ttl_ms & !TTL_NS_TAG)
+    } else {
+        Duration::from_millis(ttl_ms)
+    }
+}
+/// the same in nanoseconds, for the reference models
+pub fn ttl_len_ns(ttl_ms: u64) -> u128 {
+    if ttl_ms == TTL_MAX {
+        Duration::MAX.as_nanos()
+    } else if ttl_ms & TTL_NS_TAG != 0 {
+        (ttl_ms & !TTL_NS_TAG) as u128
+    } else {
+        ttl_ms as u128 * 1_000_000
+    }
+}
+
 impl Op {
     pub fn short(&self) -> String {
         match self {
             Op::Ins { k, c, ttl_ms: 0 } => format!("I({},{})", k, c),
+            Op::Ins { k, c, ttl_ms } if *ttl_ms == TTL_MAX => format!("I({},{},max)", k, c),
+            Op::Ins { k, c, ttl_ms } if *ttl_ms & TTL_NS_TAG != 0 => format!("I({},{},{}ns)", k, c, ttl_ms & !TTL_NS_TAG),
             Op::Ins { k, c, ttl_ms } => format!("I({},{},{}ms)", k, c, ttl_ms),
             Op::Pres { k, c } => format!("P({},{})", k, c),
             Op::Rem { k } => format!("R({})", k),
@@ -102,6 +129,9 @@ pub enum KeyMode {
     Transparent,
     /// index = k % m, conflict = k + 1: distinct keys share an index
     Collide { m: u64 },
+    /// index = k % m, conflict = k / m: keys below m carry the conflict hash 0 (the documented
+    /// "not provided" value), larger ones a non-zero one
+    CollideDiv { m: u64 },
 }
 
 #[derive(Clone, Debug, PartialEq, Eq, Hash, Serialize, Deserialize)]
@@ -125,6 +155,11 @@ pub struct Cfg {
     pub phase_ms: u64,
     /// metrics / histogram atomics are scheduling points
     pub metrics_points: bool,
+    /// order of the builder calls: 0 = flags before the type-changing setters (key builder,
+    /// hasher, coster, validator, callback: each of them rebuilds the builder field by field),
+    /// 1 = flags after them, 2 = interleaved
+    #[serde(default)]
+    pub builder_order: u8,
 }
 impl Cfg {
     pub fn cleanup_interval(&self) -> Duration {
@@ -152,6 +187,7 @@ impl Default for Cfg {
             coster_mod: 0,
             phase_ms: 0,
             metrics_points: false,
+            builder_order: 0,
         }
     }
 }
@@ -167,6 +203,7 @@ impl Cfg {
         match self.keymode {
             KeyMode::Transparent => (k, 0),
             KeyMode::Collide { m } => (k % m, k + 1),
+            KeyMode::CollideDiv { m } => (k % m, k / m),
         }
     }
 }
@@ -234,7 +271,7 @@ impl KeyBuilder for HKey {
         let k = raw(key);
         match self.mode {
             KeyMode::Transparent => k,
-            KeyMode::Collide { m } => k % m,
+            KeyMode::Collide { m } | KeyMode::CollideDiv { m } => k % m,
         }
     }
     fn hash_conflict<Q>(&self, _key: &Q) -> u64
@@ -255,6 +292,7 @@ impl KeyBuilder for HKey {
         match self.mode {
             KeyMode::Transparent => (k, 0),
             KeyMode::Collide { m } => (k % m, k + 1),
+            KeyMode::CollideDiv { m } => (k % m, k / m),
         }
     }
 }
@@ -488,34 +526,98 @@ pub fn build(cfg: &Cfg, flavor: Flavor) -> Result<(H, Shared), stretto::CacheErr
     });
     let h = match flavor {
         Flavor::Sync => {
-            let c: SCache = Cache::builder(cfg.num_counters, cfg.max_cost)
-                .set_key_builder(HKey { mode: cfg.keymode })
-                .set_hasher(FixedState::default())
-                .set_coster(HCoster { cfg: cfg.clone() })
-                .set_update_validator(HValidator { mode: cfg.validator, calls: validator_calls.clone() })
-                .set_callback(ledger.clone())
-                .set_ignore_internal_cost(cfg.ignore_internal_cost)
-                .set_buffer_size(cfg.buffer_size)
-                .set_buffer_items(cfg.buffer_items)
-                .set_cleanup_duration(cfg.cleanup_interval())
-                .set_metrics(cfg.metrics)
-                .finalize()?;
+            let kb = HKey { mode: cfg.keymode };
+            let hs = FixedState::default();
+            let co = HCoster { cfg: cfg.clone() };
+            let va = HValidator { mode: cfg.validator, calls: validator_calls.clone() };
+            let cb = ledger.clone();
+            let bld = Cache::builder(cfg.num_counters, cfg.max_cost);
+            let c: SCache = match cfg.builder_order {
+                0 => bld
+                    .set_ignore_internal_cost(cfg.ignore_internal_cost)
+                    .set_buffer_size(cfg.buffer_size)
+                    .set_buffer_items(cfg.buffer_items)
+                    .set_cleanup_duration(cfg.cleanup_interval())
+                    .set_metrics(cfg.metrics)
+                    .set_key_builder(kb)
+                    .set_hasher(hs)
+                    .set_coster(co)
+                    .set_update_validator(va)
+                    .set_callback(cb)
+                    .finalize()?,
+                1 => bld
+                    .set_key_builder(kb)
+                    .set_hasher(hs)
+                    .set_coster(co)
+                    .set_update_validator(va)
+                    .set_callback(cb)
+                    .set_ignore_internal_cost(cfg.ignore_internal_cost)
+                    .set_buffer_size(cfg.buffer_size)
+                    .set_buffer_items(cfg.buffer_items)
+                    .set_cleanup_duration(cfg.cleanup_interval())
+                    .set_metrics(cfg.metrics)
+                    .finalize()?,
+                _ => bld
+                    .set_metrics(cfg.metrics)
+                    .set_callback(cb)
+                    .set_buffer_items(cfg.buffer_items)
+                    .set_update_validator(va)
+                    .set_cleanup_duration(cfg.cleanup_interval())
+                    .set_coster(co)
+                    .set_buffer_size(cfg.buffer_size)
+                    .set_hasher(hs)
+                    .set_ignore_internal_cost(cfg.ignore_internal_cost)
+                    .set_key_builder(kb)
+                    .finalize()?,
+            };
             c.verif_observe_policy(obs);
             H::S(c)
         }
         Flavor::Async => {
-            let c: ACache = AsyncCache::builder(cfg.num_counters, cfg.max_cost)
-                .set_key_builder(HKey { mode: cfg.keymode })
-                .set_hasher(FixedState::default())
-                .set_coster(HCoster { cfg: cfg.clone() })
-                .set_update_validator(HValidator { mode: cfg.validator, calls: validator_calls.clone() })
-                .set_callback(ledger.clone())
-                .set_ignore_internal_cost(cfg.ignore_internal_cost)
-                .set_buffer_size(cfg.buffer_size)
-                .set_buffer_items(cfg.buffer_items)
-                .set_cleanup_duration(cfg.cleanup_interval())
-                .set_metrics(cfg.metrics)
-                .finalize(rt::thread::spawn_task)?;
+            let kb = HKey { mode: cfg.keymode };
+            let hs = FixedState::default();
+            let co = HCoster { cfg: cfg.clone() };
+            let va = HValidator { mode: cfg.validator, calls: validator_calls.clone() };
+            let cb = ledger.clone();
+            let bld = AsyncCache::builder(cfg.num_counters, cfg.max_cost);
+            let c: ACache = match cfg.builder_order {
+                0 => bld
+                    .set_ignore_internal_cost(cfg.ignore_internal_cost)
+                    .set_buffer_size(cfg.buffer_size)
+                    .set_buffer_items(cfg.buffer_items)
+                    .set_cleanup_duration(cfg.cleanup_interval())
+                    .set_metrics(cfg.metrics)
+                    .set_key_builder(kb)
+                    .set_hasher(hs)
+                    .set_coster(co)
+                    .set_update_validator(va)
+                    .set_callback(cb)
+                    .finalize(rt::thread::spawn_task)?,
+                1 => bld
+                    .set_key_builder(kb)
+                    .set_hasher(hs)
+                    .set_coster(co)
+                    .set_update_validator(va)
+                    .set_callback(cb)
+                    .set_ignore_internal_cost(cfg.ignore_internal_cost)
+                    .set_buffer_size(cfg.buffer_size)
+                    .set_buffer_items(cfg.buffer_items)
+                    .set_cleanup_duration(cfg.cleanup_interval())
+                    .set_metrics(cfg.metrics)
+                    .finalize(rt::thread::spawn_task)?,
+                _ => bld
+                    .set_metrics(cfg.metrics)
+                    .set_callback(cb)
+                    .set_buffer_items(cfg.buffer_items)
+                    .set_update_validator(va)
+                    .set_cleanup_duration(cfg.cleanup_interval())
+                    .set_coster(co)
+                    .set_buffer_size(cfg.buffer_size)
+                    .set_hasher(hs)
+                    .set_ignore_internal_cost(cfg.ignore_internal_cost)
+                    .set_key_builder(kb)
+                    .finalize(rt::thread::spawn_task)?,
+            };
             c.verif_observe_policy(obs);
             H::A(c)
         }
@@ -528,7 +630,7 @@ impl H {
     /// go through the panicking wrappers (`insert`, `insert_with_ttl`, `insert_if_present`), odd
     /// ones through the `try_*` forms.
     pub fn insert(&self, k: u64, v: Val, c: i64, ttl_ms: u64) -> Res {
-        let ttl = Duration::from_millis(ttl_ms);
+        let ttl = ttl_dur(ttl_ms);
         if v.seq % 2 == 0 {
             return Res::Bool(match (self, ttl_ms) {
                 (H::S(x), 0) => x.insert(k, v, c),
